@@ -115,7 +115,7 @@ def run(res):
     out = pl.run_pipeline(res, cases, want_spec=False, want_model_reader=False)
     # a million numbers, 97.8% of them in one range spanning the whole type, beside ranges whose counts make
     # the optimal code tree 17 levels deep: only the size oracle on the real output (no model run)
-    big = [deep_huffman_case(256, rng, dt, many=True) for dt in (["u32", "u64", "i16"] if thorough else ["u32"])]
+    big = [deep_huffman_case(256, rng, dt, many=True) for dt in (["u32", "u64", "i32"] if thorough else ["u32"])]
     big_ans = lib.run_impl([pl.compress_query(c) for c in big], timeout=1200)
     obad, kbad = [], []
     worst = 0.0
